@@ -306,8 +306,12 @@ def run_property(pid: str, tier: str, seed: int, jobs: int = None, only=None):
         "unverified_remainder": meta.get("remainder", []),
     }
     if level != "proof" or obligations == 0:
-        coverage.update(evaluations=evals, distinct_nontrivial=distinct,
-                        rule="; ".join(sorted({b.get("rule", "") for b in bresults if b.get("rule")})) or "see bounded.*")
+        sym_paths = sum((f.get("paths") or 0) for f in functions)
+        coverage.update(evaluations=evals + sym_paths, distinct_nontrivial=distinct + sym_paths,
+                        rule=("PYVC: one case per feasible decision sequence (path) of the real function on symbolic inputs "
+                              "of the stated shape - distinct by construction; native harness: "
+                              + ("; ".join(sorted({b.get("rule", "") for b in bresults if b.get("rule")})) or "none")),
+                        symbolic_paths=sym_paths)
     ev = {"property_id": pid, "tier": tier, "seed": seed, "level": level, "coverage": coverage,
           "assumptions": sorted(assumptions | set(meta.get("assumptions", []))),
           "wall_s": round(wall, 2), "violations": len(violations)}
